@@ -1645,6 +1645,11 @@ func matchRegex(re *syntax.Regexp) ([]string, bool) {
 		if sz > maxLiterals {
 			return nil, false
 		}
+		if sz == 0 {
+			// An empty class such as [^\x00-\x{10FFFF}] matches nothing, which
+			// no list of literals can express (an empty list means '').
+			return nil, false
+		}
 
 		names := make([]string, 0, sz)
 		for i := 0; i < len(re.Rune); i += 2 {
